@@ -93,6 +93,45 @@ func checkShards(alive []models.NodeID, sa *models.ShardAssignment, from, to, rf
 			out = append(out, vio{"C18/assign-total-replicas-unbalanced",
 				fmt.Sprintf("total replica counts per node differ by %d (> %d) over shards %d..%d: %v", tmx-tmn, spreadLimit, from, to-1, total)})
 		}
+		// beyond the statement (goal 2 in the header of shard_assign.go): the followers of the shards that
+		// share a first replica are spread over the OTHER nodes – per replica position, counts differ by <= 1
+		if complete && rf >= 2 && len(alive) >= 2 {
+			type fk struct {
+				first models.NodeID
+				pos   int
+			}
+			spread := map[fk]map[models.NodeID]int{}
+			for id := from; id < to; id++ {
+				reps := sa.Shards[models.ShardID(id)].Replicas
+				for j := 1; j < len(reps); j++ {
+					k := fk{reps[0], j}
+					if spread[k] == nil {
+						spread[k] = map[models.NodeID]int{}
+					}
+					spread[k][reps[j]]++
+				}
+			}
+		spreadLoop:
+			for k, m := range spread {
+				mn, mx := 1<<30, -1
+				for _, n := range alive {
+					if n == k.first {
+						continue
+					}
+					if m[n] < mn {
+						mn = m[n]
+					}
+					if m[n] > mx {
+						mx = m[n]
+					}
+				}
+				if mx-mn > 1 {
+					out = append(out, vio{"C18/assign-followers-of-a-node-not-spread",
+						fmt.Sprintf("shards %d..%d led by node %d: replica #%d lands %v on the other nodes (differs by %d)", from, to-1, k.first, k.pos+1, m, mx-mn)})
+					break spreadLoop
+				}
+			}
+		}
 		// round-robin proper: any min(n, #shards) consecutive shards have pairwise distinct first replicas
 		if complete {
 			w := len(alive)
